@@ -9,6 +9,7 @@ import numpy as np
 import pandas as pd
 import pyarrow as pa
 
+from harness import arrayops as ao
 from harness import core, gen
 from harness.core import attempt, cq_bools, cq_list, cq_lrows, cq_nats, cq_res, cq_strs, cq_vals
 from nested_pandas import NestedFrame
@@ -184,14 +185,24 @@ def generate(ctx):
     n_cases = ctx.budget(160, 1500)
     max_rows = 8 if ctx.tier == "quick" else 14
     tmpdir = tempfile.mkdtemp(prefix="verif_c03_")
-    recipes = gen.LAYOUTS + ["parquet"]
+    recipes = gen.LAYOUTS + ["parquet", "history", "history"]
     cases = []
     try:
         for i in range(n_cases):
             corner = {0: "zero_rows", 1: "all_missing", 2: "all_empty"}.get(i % 40)
             recipe = recipes[i % len(recipes)] if i < 3 * len(recipes) else rng.choice(recipes)
-            schema, rows, ca = make_case(rng, recipe, corner, tmpdir, max_rows, 5 if i % 7 else 12)
-            built = attempt(lambda: NEA(ca))
+            if recipe == "history":
+                # ONE object that has lived: reads (which may cache) interleaved with valid in-place writes
+                hinp = ao.mk_input(rng, max_rows=max_rows, recipe="history", corner=corner)
+                schema, rows, ca, built = hinp["schema"], hinp["rows"], hinp["ca"], hinp["built"]
+                if hinp.get("history_failed"):
+                    c = ao.history_failure_case(hinp)
+                    c["op"] = "views"
+                    cases.append(dict(c, cid=i))
+                    continue
+            else:
+                schema, rows, ca = make_case(rng, recipe, corner, tmpdir, max_rows, 5 if i % 7 else 12)
+                built = attempt(lambda: NEA(ca))
             # the views are views of the array AS STORED (the constructor may normalise chunking)
             stored = built[1].chunked_array if built[0] == "ok" else ca
             ph = core.phys(stored)
